@@ -104,22 +104,33 @@ class SymExec:
                 g = n.generators[0]
                 it = self.subst(g.iter, env)
                 if isinstance(it, (ast.Tuple, ast.List)) and len(it.elts) <= 16 and \
-                   not any(isinstance(x, ast.Starred) for x in it.elts):
+                   not any(isinstance(x, ast.Starred) and not _is_each(x.value) for x in it.elts):
+                    # a map over a literal: entry by entry; an entry *_each(E, IT) maps to *_each(elt(E), IT)
                     elts = []
                     for item in it.elts:
                         q_ = Path({k_: v_ for k_, v_ in env.items()}, ())
                         for x in ast.walk(g.target):
                             if isinstance(x, ast.Name):
                                 q_.env.pop(x.id, None)
-                        self._assign(g.target, item, q_, None)
-                        elts.append(self.subst(n.elt, q_.env))
+                        if isinstance(item, ast.Starred):
+                            self._assign(g.target, item.value.args[0], q_, None)
+                            each = ast.Call(func=ast.Name(id='_each', ctx=ast.Load()),
+                                            args=[self.subst(n.elt, q_.env), item.value.args[1]], keywords=[])
+                            elts.append(ast.Starred(value=each, ctx=ast.Load()))
+                        else:
+                            self._assign(g.target, item, q_, None)
+                            elts.append(self.subst(n.elt, q_.env))
                     return ast.List(elts=elts, ctx=ast.Load())
                 p_ = Path({k_: v_ for k_, v_ in env.items()}, ())
                 for x in ast.walk(g.target):
                     if isinstance(x, ast.Name):
                         p_.env.pop(x.id, None)
                 self._bind_loop(g.target, it, p_)
-                return ast.Call(func=ast.Name(id='_each', ctx=ast.Load()), args=[self.subst(n.elt, p_.env), it], keywords=[])
+                each = ast.Call(func=ast.Name(id='_each', ctx=ast.Load()), args=[self.subst(n.elt, p_.env), it], keywords=[])
+                if isinstance(n, ast.ListComp):
+                    # a list built by a comprehension is a list literal whose entries are "each element"
+                    return ast.List(elts=[ast.Starred(value=each, ctx=ast.Load())], ctx=ast.Load())
+                return each
             if isinstance(n, (ast.Lambda, ast.GeneratorExp, ast.ListComp, ast.SetComp, ast.DictComp)):
                 # bound variables shadow: substitute only names that are not rebound inside
                 bound = {x.id for x in ast.walk(n) if isinstance(x, ast.Name) and isinstance(x.ctx, ast.Store)}
@@ -148,8 +159,10 @@ class SymExec:
             return None
         if getattr(g, 'is_property', False):
             return None
-        if any(isinstance(a, ast.Starred) for a in call.args) or any(k.arg is None for k in call.keywords):
-            return None
+        star_kw = [k for k in call.keywords if k.arg is None]
+        if any(isinstance(a, ast.Starred) for a in call.args) or len(star_kw) > 1 or \
+           (star_kw and (g.node.args.kwarg is None or len(call.keywords) != 1)):
+            return None         # **d is only passed through to a callee that takes **kw itself
         if any(isinstance(n, (ast.Yield, ast.YieldFrom)) for n in walk_no_nested(g.node)):
             return None
         return g
@@ -213,7 +226,10 @@ class SymExec:
         for p_, a in zip(params, call.args):
             bind[p_] = a
         for k in call.keywords:
-            bind[k.arg] = k.value
+            if k.arg is None:
+                bind[g.node.args.kwarg.arg] = k.value
+            else:
+                bind[k.arg] = k.value
         a_ = g.node.args
         pos = a_.posonlyargs + a_.args
         for p_, d in zip(pos[len(pos) - len(a_.defaults):], a_.defaults):
@@ -265,8 +281,14 @@ class SymExec:
         for combo in itertools.product(*[hp for n, hp in calls]):
             repl = {id(n): val for (n, hp), (val, hc) in zip(calls, combo)}
             p2 = path.fork()
+            feasible = True
             for (val, hc) in combo:
+                if any(isinstance(b, bool) and (t, not b) in p2.conds for t, b in hc):
+                    feasible = False        # the helper path contradicts a test the caller already passed
+                    break
                 p2.conds = p2.conds + tuple(c for c in hc if c not in p2.conds)
+            if not feasible:
+                continue
             v2 = copy_replace(v, lambda x: repl.get(id(x)))
             out.append((simplify(v2), p2))
         return out
@@ -376,6 +398,35 @@ class SymExec:
         self._assign(target, elem(it), p, None)
         p.stores = [s_ for s_ in p.stores if s_[2] is not None]
 
+    def _tokenize(self, v, p, st):
+        """objects=True: every constructor call in the evaluated expression creates an object with an
+        identity of its own (innermost first); the expression refers to it by its token"""
+        if not self.objects:
+            return v
+        classes = self.ctx.model.classes
+
+        def rec(n):
+            if not isinstance(n, ast.AST) or isinstance(n, (ast.Lambda, ast.GeneratorExp, ast.ListComp, ast.SetComp, ast.DictComp)):
+                return n
+            new = n.__class__()
+            for fld, val in ast.iter_fields(n):
+                if isinstance(val, list):
+                    setattr(new, fld, [rec(x) for x in val])
+                else:
+                    setattr(new, fld, rec(val))
+            for a in ('lineno', 'col_offset', 'end_lineno', 'end_col_offset', '_appended'):
+                if hasattr(n, a):
+                    setattr(new, a, getattr(n, a))
+            if isinstance(new, ast.Call) and isinstance(new.func, ast.Name) and new.func.id in classes:
+                tok = ast.Name(id='_obj%d' % self._ntok[0], ctx=ast.Load())
+                self._ntok[0] += 1
+                p.events.append(('create', tok.id, new, st, p.loops))
+                return tok
+            return new
+        if not any(isinstance(x, ast.Call) and isinstance(x.func, ast.Name) and x.func.id in classes for x in ast.walk(v)):
+            return v
+        return rec(v)
+
     def _effect_call(self, st, p):
         """`x = self.helper(...)` / `self.helper(...)` where the helper has side effects: its stores,
         calls and events become ours (arguments substituted), one caller path per helper path"""
@@ -391,8 +442,11 @@ class SymExec:
         out = []
         for q in hp:
             p2 = p.fork()
+            if any(isinstance(b, bool) and (t, not b) in p2.conds for t, b in q.conds):
+                continue
             p2.conds = p2.conds + tuple(c for c in q.conds if c not in p2.conds)
             p2.stores += q.stores
+            p2.asserted = getattr(p2, 'asserted', ()) + getattr(q, 'asserted', ())
             p2.calls += q.calls
             p2.events += [ev[:-1] + (p.loops + ev[-1],) for ev in q.events]
             if isinstance(st, ast.Assign):
@@ -512,14 +566,9 @@ class SymExec:
         if isinstance(st, ast.Assign):
             out = []
             for v, p2 in self.eval_expr(st.value, p):
+                v = self._tokenize(v, p2, st)
                 if isinstance(v, ast.Call):
-                    if self.objects and isinstance(v.func, ast.Name) and v.func.id in self.ctx.model.classes:
-                        tok = ast.Name(id='_obj%d' % self._ntok[0], ctx=ast.Load())
-                        self._ntok[0] += 1
-                        p2.events.append(('create', tok.id, v, st, p2.loops))
-                        v = tok
-                    else:
-                        p2.events.append(('call', v, st, p2.loops))
+                    p2.events.append(('call', v, st, p2.loops))
                 for t in st.targets:
                     self._assign(t, v, p2, st)
                 out.append(p2)
@@ -541,13 +590,30 @@ class SymExec:
                 self._assign(st.target, v, p2, st)
                 out.append(p2)
             return out
+        if isinstance(st, ast.Expr) and isinstance(st.value, ast.Yield):
+            out = []
+            val = st.value.value if st.value.value is not None else ast.Constant(value=None)
+            for v, p2 in self.eval_expr(val, p):
+                p2.events.append(('yield', v, st, p2.loops))
+                out.append(p2)
+            return out
+        if isinstance(st, ast.Expr) and isinstance(st.value, ast.YieldFrom):
+            out = []
+            for v, p2 in self.eval_expr(st.value.value, p):
+                p2.events.append(('yield-from', v, st, p2.loops))
+                out.append(p2)
+            return out
         if isinstance(st, ast.Expr) and isinstance(st.value, ast.Call):
             out = []
             c0 = st.value
             keep = None
-            if isinstance(c0.func, ast.Attribute) and isinstance(c0.func.value, ast.Name):
+            if isinstance(c0.func, ast.Attribute) and isinstance(c0.func.value, (ast.Name, ast.Attribute)) and \
+               c0.func.attr in ('append', 'extend', 'insert', 'update', 'add', 'sort', 'reverse', 'pop', 'remove', 'clear'):
+                keep = dotted(c0.func.value)  # the receiver of an in-place container method stays as written
+            elif isinstance(c0.func, ast.Attribute) and isinstance(c0.func.value, ast.Name):
                 keep = c0.func.value.id      # the receiver of a method call statement stays a name
             for v, p2 in self.eval_expr(st.value, p if keep is None else _without(p, keep)):
+                v = self._tokenize(v, p2, st)
                 if keep is not None:
                     p2.env = dict(p.env) if p2.env.keys() != p.env.keys() - {keep} else p2.env
                     if keep in p.env:
@@ -584,6 +650,7 @@ class SymExec:
             ats = atomize(self.subst(st.test, p.env), True)
             p.conds = p.conds + tuple(a for a in ats if a not in p.conds)
             p.asserted = getattr(p, 'asserted', ()) + tuple(a for a in ats)
+            p.events.append(('assert', ats, None, st, p.loops))
             return [p]
         return [p]
 
@@ -623,6 +690,12 @@ def simplify(e):
                and sl.lower.value > 0:
                 return simplify(ast.Subscript(value=n.value.value, slice=ast.BinOp(left=n.slice, op=ast.Add(), right=sl.lower),
                                               ctx=ast.Load()))
+        if isinstance(n, ast.Subscript) and isinstance(n.value, ast.Call) and isinstance(n.value.func, ast.Name) and \
+           n.value.func.id == 'range' and isinstance(n.slice, ast.Name) and n.slice.id.startswith('_k') and \
+           not n.value.keywords and len(n.value.args) in (1, 2):
+            if len(n.value.args) == 1:
+                return n.slice
+            return ast.BinOp(left=simplify(n.value.args[0]), op=ast.Add(), right=n.slice)
         if isinstance(n, ast.Call) and isinstance(n.func, ast.Lambda) and not n.keywords and \
            not any(isinstance(a, ast.Starred) for a in n.args):
             la = n.func.args
@@ -653,7 +726,7 @@ def simplify(e):
     return copy_replace(e, fn)
 
 
-def loop_transformer(ctx, func, loop, depth=2):
+def loop_transformer(ctx, func, loop, depth=2, **kw):
     """One iteration of `loop` (a statement of func's top-level body) as a state transformer.
     returns (pre, carried, body_paths, post_paths):
       pre        {name: AST} definitions reaching the loop from the statements before it (single path
@@ -665,7 +738,7 @@ def loop_transformer(ctx, func, loop, depth=2):
     if loop not in body:
         raise AnalysisError('%s: loop is not a top-level statement' % func.qual)
     k = body.index(loop)
-    sx = SymExec(ctx, func, depth)
+    sx = SymExec(ctx, func, depth, **kw)
     pre_paths = [p for p in sx.run(stmts=body[:k]) if p.end is None]
     if not pre_paths:
         raise AnalysisError('%s: no path reaches the loop' % func.qual)
